@@ -80,9 +80,15 @@ class Facts:
         self.impls = []
         self.fnsigs = {}
         self.coroutines = {}
-        for cname, d in crates.items():
+        # library builds first, then test units: a `--test` build of a library repeats every library
+        # body under the same id; only its test-only bodies are added
+        order = sorted(crates.items(), key=lambda kv: ("#test" in kv[0], kv[0]))
+        for cname, d in order:
+            is_test_unit = "#test" in cname
             for b in d["bodies"]:
                 body = Body(b, cname)
+                if is_test_unit and body.id in self.bodies and self.bodies[body.id].crate == d["crate"]:
+                    continue
                 if body.id in self.bodies:
                     self.dups.setdefault(body.id, [self.bodies[body.id]]).append(body)
                 else:
@@ -91,18 +97,21 @@ class Facts:
                 if body.root != body.id:
                     self.children.setdefault(body.root, []).append(body)
             for a in d["adts"]:
-                self.adts[a["id"]] = a
+                self.adts.setdefault(a["id"], a)
             for c in d["consts"]:
-                self.consts[c["id"]] = c
+                self.consts.setdefault(c["id"], c)
             for s in d["statics"]:
-                self.statics[s["id"]] = s
+                self.statics.setdefault(s["id"], s)
+            seen_impls = {(i["id"], i.get("file"), i.get("line")) for i in self.impls} if is_test_unit else set()
             for i in d["impls"]:
+                if (i["id"], i.get("file"), i.get("line")) in seen_impls:
+                    continue
                 i["crate"] = cname
                 self.impls.append(i)
             for f in d["fns"]:
-                self.fnsigs[f["id"]] = f
+                self.fnsigs.setdefault(f["id"], f)
             for c in d["coroutines"]:
-                self.coroutines[c["id"]] = c
+                self.coroutines.setdefault(c["id"], c)
 
     # ---- lookup helpers
     def all_bodies(self, crate=None):
